@@ -57,6 +57,9 @@ def exact_reason(s, defs, top=True):
         if any(isinstance(v, bool) or v in (0, 1) and not isinstance(v, str) for v in vals):
             return "enum-bool-like"
         return None
+    for kw in ("allOf", "anyOf", "oneOf", "not"):
+        if kw in s and mentions_object(s[kw]):
+            return "multi-over-object"
     if isinstance(s.get("multiplesOf"), float) or (s.get("type") == "number" and "multiplesOf" in s):
         return "float-multiplesOf"
     for k, v in s.items():
@@ -70,6 +73,18 @@ def exact_reason(s, defs, top=True):
             if r:
                 return r
     return None
+
+
+def mentions_object(x):
+    """does a multi-field member mention an object / map / $ref (deserialization of structured
+    options inside AllOf/AnyOf/OneOf/NotField is the subject of C06, not of the generator)"""
+    if isinstance(x, list):
+        return any(mentions_object(y) for y in x)
+    if isinstance(x, dict):
+        if "$ref" in x or "properties" in x or x.get("type") == "object":
+            return True
+        return any(mentions_object(v) for k, v in x.items() if k not in ("enum", "default"))
+    return False
 
 
 class DocGen:
